@@ -27,7 +27,8 @@ for rid in sorted(rules, key=keyf):
 inv = "\n".join(out)
 
 idx = json.load(open(os.path.join(VERIF, "mutants", "index.json")))["mutants"] if os.path.exists(os.path.join(VERIF, "mutants", "index.json")) else {}
-rows = ["| change | property it breaks | what it needs to manifest | reported by the checks of |", "|---|---|---|---|"]
+rows = ["| change | property it breaks | what it needs to manifest | reported by the checks of | round 2: reported at first contact (before any follow-up) |", "|---|---|---|---|---|"]
+fc = json.load(open(os.path.join(VERIF, "seeded", "round2_first_contact.json"))) if os.path.exists(os.path.join(VERIF, "seeded", "round2_first_contact.json")) else {}
 sd = os.path.join(VERIF, "seeded")
 for d in sorted(os.listdir(sd)) if os.path.isdir(sd) else []:
     mp = os.path.join(sd, d, "meta.json")
@@ -37,10 +38,12 @@ for d in sorted(os.listdir(sd)) if os.path.isdir(sd) else []:
     det = idx.get("seeded/%s/patch.diff" % d, {}).get("detected_by", m.get("detected_by_checks") or [])
     summ = (m.get("summary") or "").replace("|", "/").replace("\n", " ")
     needs = (m.get("needs") or "").replace("|", "/").replace("\n", " ")
-    rows.append("| seeded/%s: %s | %s | %s | %s |" % (d, summ[:220] + ("…" if len(summ) > 220 else ""), m.get("property"), needs[:200] + ("…" if len(needs) > 200 else ""), " ".join(det) if det else "**none**"))
+    f = fc.get(d)
+    first = "—" if f is None else ((" ".join(f["first"]) if f["first"] else "**none**") + ("; follow-up: " + f["follow_up"].replace("|", "/") if f.get("follow_up") else ""))
+    rows.append("| seeded/%s: %s | %s | %s | %s | %s |" % (d, summ[:220] + ("…" if len(summ) > 220 else ""), m.get("property"), needs[:200] + ("…" if len(needs) > 200 else ""), " ".join(det) if det else "**none**", first))
 for k, v in sorted(idx.items()):
     if k.startswith("mutants/"):
-        rows.append("| %s | (own mutation / revert of a fix) | — | %s |" % (k, " ".join(v["detected_by"]) if v["detected_by"] else "**none**"))
+        rows.append("| %s | (own mutation / revert of a fix) | — | %s | — |" % (k, " ".join(v["detected_by"]) if v["detected_by"] else "**none**"))
 seeded = "\n".join(rows)
 
 p = os.path.join(VERIF, "DESIGN.md")
